@@ -598,6 +598,70 @@ pub fn check(prop: &str, tier: &str) -> i32 {
         rep.transitions += runs;
         rep.set("text_payload_generations", json!({"alphabet": "\\ u U ' \" a 0 x", "max_length": maxlen, "generations": runs}));
     }
+    // the opt-in flags through the command-line front end (single-file and batch mode): each flag on its own
+    if prop == "C10" {
+        use rayon::prelude::*;
+        let cli = std::env::var("VERIF_CLI").unwrap_or_else(|_| format!("{}/target/cli/release/pickle-fuzzer", crate::report::verif_dir()));
+        if std::path::Path::new(&cli).exists() {
+            let mut jobs: Vec<(u8, bool, bool, bool, u64)> = vec![];
+            for p in [2u8, 4, 5] {
+                for (e, b) in [(false, false), (true, false), (false, true), (true, true)] {
+                    for batch in [false, true] {
+                        for seed in [1u64, 2, 3] {
+                            jobs.push((p, e, b, batch, seed));
+                        }
+                    }
+                }
+            }
+            let base = format!("{}/target/c10-cli-{}", crate::report::verif_dir(), std::process::id());
+            let res: Vec<(String, Vec<Finding>)> = jobs
+                .par_iter()
+                .enumerate()
+                .map(|(i, (p, e, b, batch, seed))| {
+                    let mut args: Vec<String> = vec!["--protocol".into(), p.to_string(), "--seed".into(), seed.to_string(), "--min-opcodes".into(), "250".into(), "--max-opcodes".into(), "300".into()];
+                    if *e {
+                        args.push("--allow-ext".into());
+                    }
+                    if *b {
+                        args.push("--allow-buffer".into());
+                    }
+                    let dir = format!("{base}-{i}");
+                    let _ = std::fs::remove_dir_all(&dir);
+                    let _ = std::fs::create_dir_all(&dir);
+                    let mut cmd = std::process::Command::new(&cli);
+                    if *batch {
+                        cmd.arg("--dir").arg(format!("{dir}/out")).arg("--samples").arg("3");
+                    } else {
+                        cmd.arg(format!("{dir}/one.pkl"));
+                    }
+                    let _ = cmd.args(&args).output();
+                    let files: Vec<String> = if *batch { (0..3).map(|k| format!("{dir}/out/{k}.pkl")).collect() } else { vec![format!("{dir}/one.pkl")] };
+                    let cfg = Cfg::new(*p).flags(*e, *b);
+                    let mut fs = vec![];
+                    for f in files {
+                        let bytes = std::fs::read(&f).unwrap_or_default();
+                        let (ops, m) = analyse(&bytes);
+                        let r = crate::run::RunResult { out: Ok(bytes), panic: None, events: vec![] };
+                        let tr = trace::parse(&[], 0, false);
+                        let ctx = RunCtx { cfg: &cfg, script: &[], res: &r, tr: &tr, ops: &ops, m: m.as_ref() };
+                        fs.extend(monitors::c10(&ctx));
+                    }
+                    let _ = std::fs::remove_dir_all(&dir);
+                    (format!("pickle-fuzzer {} {}", if *batch { "--dir D --samples 3" } else { "FILE" }, args.join(" ")), fs)
+                })
+                .collect();
+            let n = res.len() as u64;
+            for (cmdline, fs) in res {
+                for fd in fs.into_iter().take(1) {
+                    rep.finding_raw(&format!("{}:cli", fd.class), &format!("{cmdline}: {}", fd.msg), json!({"kind":"cli","argv":cmdline}));
+                }
+            }
+            rep.transitions += n;
+            rep.set("cli_invocations", json!(n));
+        } else {
+            rep.machinery.push(format!("CLI binary {cli} not built (run through bin/check)"));
+        }
+    }
     // reuse: the second and third pickle of ONE generator (no reset in between) go through the same oracle
     {
         use rayon::prelude::*;
